@@ -262,6 +262,19 @@ func (ci *ChunkInfo) getCidSort(rootCid, cid boson.Address) int {
 	return pyramid.cids[cid.String()].sort
 }
 
+// getDataCidSort is getCidSort for data chunks only: ok is false when cid is not a data
+// chunk of the file (a manifest or intermediate chunk has no position).
+func (ci *ChunkInfo) getDataCidSort(rootCid, cid boson.Address) (sort int, ok bool) {
+	ci.cp.RLock()
+	defer ci.cp.RUnlock()
+	pyramid, err := ci.getPyramid(rootCid)
+	if err != nil {
+		return 0, false
+	}
+	c, ok := pyramid.cids[cid.String()]
+	return c.sort, ok
+}
+
 // func (cp *chunkPyramid) updateCidSort(rootCid, cid boson.Address, sort int) {
 //
 //	v, ok := cp.pyramid[rootCid.String()][cid.String()]
